@@ -37,8 +37,12 @@ for f in sorted(glob.glob(os.path.join(HERE, "props", "c[0-9]*_*.py"))):
         engine="hypothesis-runner",
         level_claimed=dict(
             category="exploration",
-            text=getattr(mod, "LEVEL_TEXT", "Generated-input search (Hypothesis) against an explicit oracle; "
-                         "the evidence counts generated and distinct non-trivial cases. No absence claim."),
+            text=getattr(mod, "LEVEL_TEXT", None) or (
+                "Exploration: Hypothesis-generated cases (seeded, sharded over processes) run the real code against an "
+                "explicit oracle; violations are bucketed, shrunk and written as replay files. What is explored: "
+                + " ".join((mod.__doc__ or "").split())[:900]
+                + " -- The evidence file counts generated cases and distinct non-trivial ones by the stated rule; this "
+                "level finds violations, it does not prove their absence."),
             design_ref=f"DESIGN.md section 4/{pid}"),
         level_note=getattr(mod, "LEVEL_NOTE", "; ".join(getattr(mod, "ASSUMPTIONS", [])) or
                            "trusted: numpy/scipy linear algebra, the harness oracle code in props/ and vlib/"),
